@@ -182,6 +182,12 @@ def _splice_phase_helpers(ctx):
     nb = splice.splice_body(raw[WRITER], raw, is_phase_helper, (), 0)
     if nb is not raw[WRITER]:
         ctx._bodies[(WRITER, False)] = mir.Body(nb, ctx.F)
+    # the reader likewise: a new helper that decodes the record just read (`decode_key_event(&buf) -> Option<Event>`) is
+    # part of the reader
+    for rd in [p_ for p_ in raw if p_.endswith("DevInputReader::next") and "{closure" not in p_]:
+        nr = splice.splice_body(raw[rd], raw, lambda n_: n_ in raw and n_ not in known and "{closure" not in n_ and "::tests::" not in n_ and len(raw[n_]["blocks"]) <= 250, (), 0)
+        if nr is not raw[rd]:
+            ctx._bodies[(rd, False)] = mir.Body(nr, ctx.F)
 
 
 def _run(ctx):
